@@ -51,6 +51,14 @@ def listNext (ws : List Nat) : List Nat × Nat :=
   | [] => ([], 0)
   | w :: r => (r, w)
 
+/-- SplitMix64, the harness' seeded generator (`util::Sm::next`) -/
+def smNext (st : UInt64) : UInt64 × Nat :=
+  let st := st + 0x9e3779b97f4a7c15
+  let z := st
+  let z := (z ^^^ (z >>> 30)) * 0xbf58476d1ce4e5b9
+  let z := (z ^^^ (z >>> 27)) * 0x94d049bb133111eb
+  (st, (z ^^^ (z >>> 31)).toNat)
+
 def parseHexNat (s : String) : Option Nat :=
   s.toList.foldlM (fun acc c => (Bytes.hexVal c).map (fun d => 16 * acc + d)) 0
 
@@ -168,6 +176,15 @@ def handleSharks (toks : List String) : String :=
           let all := nextShares polys nn 0 ++ gs
           "ok " ++ (if all.isEmpty then "-" else hexs (all.map Sharks.shareToBytes))
     | _, _, _, _, _ => "bad-op"
+  | ["sharks.dealsm", t, secret, sd, nnext] =>
+    match t.toNat?, Bytes.ofHex secret, sd.toNat?, nnext.toNat? with
+    | some t, some sec, some sd, some nn =>
+      match Sharks.dealerRng smNext fuel t sec (UInt64.ofNat sd) with
+      | none => "fuel"
+      | some (.err _) => "err"
+      | some (.panic _) => "panic"
+      | some (.ok (_, polys)) => "ok " ++ hexs ((nextShares polys nn 0).map Sharks.shareToBytes)
+    | _, _, _, _ => "bad-op"
   | ["sharks.recover", t, shares] =>
     match t.toNat?, parseSharksShares shares with
     | some t, some sh => showOutcomeBytes (Sharks.recover t sh)
